@@ -46,7 +46,11 @@ def build_xml(model, acts, inj, init_qpos=None):
     kw['geom_override'] = {site: [f'<geom name="G{site}" type="cylinder" size="0.05 0.2" contype="0" conaffinity="1"/>']}
     kw['ground'] = True
   elif kind == 'ref':
-    kw['joint_extra'] = {tuple(site): ' ref="0.25"'}
+    # (a reference offset stays a reference offset when the spring's rest position happens to coincide with it)
+    kw['joint_extra'] = {tuple(site): ' ref="0.25"' + (' springref="0.25"' if inj.get('with_springref') else '')}
+  elif kind == 'none' and inj.get('springref_at'):
+    # a spring rest position alone is an ordinary supported joint attribute
+    kw['joint_extra'] = {tuple(inj['springref_at']): ' springref="0.25"'}
   elif kind in ('ball', 'ball_range', 'ball_stacked'):
     l = model['links'][site - 1]
     anchor = render.vec(l['anchor'])
@@ -233,6 +237,23 @@ def run(ctx):
     ctx.add_tlc(res, f'MjcfLoad.tla {label}')
     cases += [{'model': s['model'], 'acts': s['acts'], 'inj': s['inj'], 'expect': s['expect']}
               for s in tlaval.parse_dump(dump + '.dump')]
+  # variants decided by the same table (reject iff a feature is injected), placed where the generator rarely puts them:
+  #  - a stiff free joint on a free root that comes AFTER a jointed link in joint order
+  #  - ref together with an equal springref; springref alone on a clean model
+  extra = []
+  for i, c in enumerate(list(cases)):
+    links = c['model']['links']
+    if c['inj']['kind'] == 'none':
+      late_free = [k for k, l in enumerate(links, 1) if l['root'] == 'free' and any(m['root'] != 'free' for m in links[:k - 1])]
+      if late_free:
+        extra.append({**c, 'inj': {'kind': 'free_stiffness', 'site': late_free[-1]}, 'expect': {**c['expect'], 'reject': True}})
+      jointed = [(k, 1) for k, l in enumerate(links, 1) if l['root'] != 'free' and l['stack']]
+      if jointed and i % 3 == 0:
+        extra.append({**c, 'inj': {'kind': 'none', 'site': c['inj']['site'], 'springref_at': list(jointed[0])}})
+    elif c['inj']['kind'] == 'ref' and i % 2 == 0:
+      extra.append({**c, 'inj': {**c['inj'], 'with_springref': True}})
+  cases += extra
+  ctx.extra['variant_cases'] = len(extra)
   # every second clean model carries brax's init_qpos option: the nominal start pose the loaded system must report
   rq = core.rng(ctx, 15)
   nclean = 0
